@@ -509,6 +509,119 @@ func (c *Ctx) RuleResolve() *Result {
 			}
 		})
 	}
+	// (r2'') the upward search stops at the nearest hit
+	for _, fn := range c.P.RepoFns {
+		if load.ShortPkg(load.FnPkgPath(fn)) != "cmd" || !fnHasErrResult(fn) {
+			continue
+		}
+		var stat *ssa.Call
+		hasConst := false
+		allInstrs(fn, func(in ssa.Instruction) {
+			if c2, ok := in.(*ssa.Call); ok && isFn(staticCallee(&c2.Call), "os", "Stat") {
+				stat = c2
+			}
+			for _, op := range in.Operands(nil) {
+				if op != nil && *op != nil {
+					if sv, ok := constString(*op); ok && sv == "regex-assembly" {
+						hasConst = true
+					}
+				}
+			}
+		})
+		if stat == nil || !hasConst || !inCycle(stat.Block()) {
+			continue
+		}
+		res.Instances++
+		key := load.FnName(fn) + ":nearest root wins"
+		ev := resultValue(stat, 1)
+		bad := ""
+		if ev == nil {
+			bad = "the result of the probe is ignored"
+		} else {
+			for _, r := range referrers(ev) {
+				bin, ok := r.(*ssa.BinOp)
+				if !ok {
+					continue
+				}
+				_, trueMeansNil, isTest := nilTest(bin)
+				if !isTest {
+					continue
+				}
+				for _, br := range condBranches(bin) {
+					succ := 0 // err == nil side
+					if !trueMeansNil != br.neg {
+						succ = 1
+					}
+					blk := br.iff.Block()
+					t := blk.Succs[succ]
+					env := newEnvAt(blk)
+					env.facts[ev] = isNil
+					env.enter(t, blk)
+					c.explore(t, 0, env, exploreCB{
+						instr: func(in ssa.Instruction, e *pathEnv) bool {
+							if in == ssa.Instruction(stat) {
+								bad = "after a directory containing regex-assembly was found the search goes on probing its ancestors: with nested roots an outer root wins over the nearest one"
+								return true
+							}
+							return false
+						},
+					})
+				}
+			}
+		}
+		if bad != "" {
+			res.bad(key, c.P.InstrPos(stat), bad)
+		} else {
+			res.ok(key, c.P.InstrPos(stat), "from the success side of the probe the function returns without probing again")
+		}
+	}
+	// (r1') every path below the assembly directory is built from the resolved file name
+	if nameField != nil {
+		g := nameField.X.(*ssa.Global)
+		for _, fn := range c.P.RepoFns {
+			if load.ShortPkg(load.FnPkgPath(fn)) != "cmd" {
+				continue
+			}
+			allInstrs(fn, func(in ssa.Instruction) {
+				cj, ok := in.(*ssa.Call)
+				if !ok {
+					return
+				}
+				f := staticCallee(&cj.Call)
+				if !(isFn(f, "path", "Join") || isFn(f, "path/filepath", "Join")) {
+					return
+				}
+				sl, ok := cj.Call.Args[0].(*ssa.Slice)
+				if !ok {
+					return
+				}
+				els := variadicElems(sl)
+				if len(els) < 2 {
+					return
+				}
+				dc, ok := stripConv(els[0]).(*ssa.Call)
+				if !ok {
+					return
+				}
+				if df := staticCallee(&dc.Call); df == nil || df.Name() != "AssemblyDir" {
+					return
+				}
+				res.Instances++
+				key := load.FnName(fn) + ":file below AssemblyDir()"
+				okName := false
+				if ld, ok := stripConv(els[1]).(*ssa.UnOp); ok {
+					if fa, ok := ld.X.(*ssa.FieldAddr); ok && fa.X == ssa.Value(g) && fa.Field == nameField.Field {
+						okName = true
+					}
+				}
+				if okName {
+					res.ok(key, c.P.InstrPos(cj), "the resolved file name")
+				} else {
+					res.bad(key, c.P.InstrPos(cj), "a file below the assembly directory is named by something other than the resolved file name of the argument (the chain suffix or the matched text can get lost): the command reads another file than the one named")
+				}
+			})
+		}
+	}
 	// (r2') without -d the root is the working directory itself
 	for _, fn := range c.P.RepoFns {
 		allInstrs(fn, func(in ssa.Instruction) {
@@ -593,6 +706,8 @@ func (c *Ctx) RuleResolve() *Result {
 			}
 		})
 		if okSet {
+			// the search returns at the first hit: from the success edge of the probe no further probe is made
+			allInstrs(fn, func(in ssa.Instruction) {})
 			res.ok(key, c.P.FnPos(fn), "*w = search(filepath.Abs(value)), the search probes for regex-assembly with os.Stat")
 		} else {
 			res.bad(key, c.P.FnPos(fn), "the -d flag does not store the result of the upward search for the directory containing regex-assembly")
@@ -653,6 +768,35 @@ func (c *Ctx) RuleSplitJoinFrame() *Result {
 		}
 		if stores != 1 {
 			problems = append(problems, fmt.Sprintf("%d line elements are assigned instead of exactly one", stores))
+		}
+		// the assigned line is put together from the captured parts of the rule-line pattern
+		for _, r := range referrers(split) {
+			ia, ok := r.(*ssa.IndexAddr)
+			if !ok {
+				continue
+			}
+			for _, rr := range referrers(ia) {
+				st, ok := rr.(*ssa.Store)
+				if !ok || st.Addr != ssa.Value(ia) {
+					continue
+				}
+				groups := 0
+				for _, op := range stringOperands(stripConv(st.Val), 0) {
+					for _, sm := range c.submatchSites() {
+						if sm.fn != ws.fn || sm.pattern == nil {
+							continue
+						}
+						for _, u := range sm.uses {
+							if u.val != nil && u.val == op && u.group > 0 {
+								groups++
+							}
+						}
+					}
+				}
+				if groups < 2 {
+					problems = append(problems, "the line that is assigned is not put together from the text before and after the operand as captured by the rule-line pattern: what is replaced is found some other way (first occurrence of the old text, fixed offsets) and can hit another part of the line")
+				}
+			}
 		}
 		if len(problems) > 0 {
 			res.bad(key, pos, strings.Join(problems, "; "))
